@@ -9,10 +9,10 @@ CONSTANTS
   ES = 0
   CB = 0
   RIC = FALSE
-  GasCap = 3
+  GasCap = 2
   InitEpochs = {0}
   InitPers = {0, 1, 4}
-  ForeignMax = 2
+  ForeignMax = 1
   ExportOn = TRUE
   MaxOps = 4
   SampleMod = 40
